@@ -59,6 +59,30 @@ macro_rules! extern_wasm {
     };
 }
 
+/// Verification hook (off unless `--cfg bytecodealliance_wit_bindgen_verif`): on
+/// non-wasm targets declare the canonical built-ins as ordinary C symbols named
+/// by their wasm import name instead of `unreachable!()` shims, so a native
+/// harness (or a `kani::stub`) can provide a mock component-model host.
+#[cfg(all(bytecodealliance_wit_bindgen_verif, not(target_family = "wasm")))]
+macro_rules! extern_wasm {
+    (
+        $(#[$extern_attr:meta])*
+        unsafe extern "C" {
+            $(
+                $(#[$func_attr:meta])*
+                $vis:vis fn $func_name:ident ( $($args:tt)* ) $(-> $ret:ty)?;
+            )*
+        }
+    ) => {
+        unsafe extern "C" {
+            $(
+                $(#[$func_attr])*
+                $vis fn $func_name($($args)*) $(-> $ret)?;
+            )*
+        }
+    };
+}
+
 mod abi_buffer;
 mod cabi;
 mod error_context;
@@ -807,3 +831,7 @@ impl Drop for TaskCancelOnDrop {
         unsafe { cancel() }
     }
 }
+
+#[cfg(bytecodealliance_wit_bindgen_verif)]
+#[path = "/verif/harness/async_support.rs"]
+mod verif;
